@@ -115,6 +115,9 @@ void harness(void) {
         VASSUME(n >= 1 && n <= N);
         for (i = 0; i < N; i++) buf[i] = i < n ? alphabet[vin.sel[i] & 31] : 0;
         buf[N] = 0;
+#ifdef HEXONLY
+        VASSUME(at(0) == '#' && (at(1) == 'H' || at(1) == 'h'));
+#endif
         if (at(0) == '#') {
             int c = at(1);
             base = (c == 'H' || c == 'h') ? 16 : (c == 'Q' || c == 'q') ? 8 : (c == 'B' || c == 'b') ? 2 : 0;
@@ -199,8 +202,8 @@ void harness(void) {
         if (!special) {
             ui = vin.unit_idx;
             VASSUME(ui < nunits);
-#ifdef UNIT_LO
-            VASSUME(ui >= UNIT_LO && ui < UNIT_HI); /* one slice of the table per case */
+#ifdef UNIT_STRIDE
+            VASSUME(ui % UNIT_STRIDE == UNIT_CLASS); /* one residue class of table rows per case */
 #endif
             name = scpi_units_def[ui].name;
             buf[p++] = '2';
